@@ -6,34 +6,39 @@ namespace OntVerif.Proofs.P2PMsg
 open OntVerif.Util OntVerif.Model.Codec OntVerif.Proofs.Codec OntVerif.Model.P2PMsg
 
 /-- `d`, started at the beginning of `bytes` (anywhere in a buffer), returns `a`, consumes exactly `bytes`
-and leaves the ghost bit alone -/
+and leaves the ghost bit `lossy` alone (the allocation counter may grow) -/
 def Reads (d : Dec α) (bytes : Bytes) (a : α) : Prop :=
-  ∀ (pre rest : Bytes) (l : Bool), (pre ++ bytes ++ rest).length < two64 →
-    d ⟨⟨pre ++ bytes ++ rest, pre.length⟩, l⟩ = .ok (a, ⟨⟨pre ++ bytes ++ rest, pre.length + bytes.length⟩, l⟩)
+  ∀ (pre rest : Bytes) (l : Bool) (al : Nat), (pre ++ bytes ++ rest).length < two64 →
+    ∃ al', d ⟨⟨pre ++ bytes ++ rest, pre.length⟩, l, al⟩ =
+      .ok (a, ⟨⟨pre ++ bytes ++ rest, pre.length + bytes.length⟩, l, al'⟩)
 
 theorem Reads.pure (a : α) : Reads (Pure.pure a : Dec α) [] a := by
-  intro pre rest l _
+  intro pre rest l al _
+  refine ⟨al, ?_⟩
   show Dec.pure a _ = _
   simp [Dec.pure]
 
 theorem Reads.bind {d : Dec α} {f : α → Dec β} {b1 b2 b : Bytes} {a : α} {c : β}
     (h1 : Reads d b1 a) (h2 : Reads (f a) b2 c) (hb : b = b1 ++ b2) : Reads (d >>= f) b c := by
   subst hb
-  intro pre rest l hlen
-  show Dec.bind d f _ = _
+  intro pre rest l al hlen
+  show ∃ al', Dec.bind d f _ = _
   unfold Dec.bind
   have e1 : pre ++ (b1 ++ b2) ++ rest = pre ++ b1 ++ (b2 ++ rest) := by simp
   rw [e1] at hlen ⊢
-  rw [h1 pre (b2 ++ rest) l hlen]
+  obtain ⟨al1, r1⟩ := h1 pre (b2 ++ rest) l al hlen
+  rw [r1]
   simp only
   have e2 : pre ++ b1 ++ (b2 ++ rest) = (pre ++ b1) ++ b2 ++ rest := by simp
   have e3 : pre.length + b1.length = (pre ++ b1).length := by simp
   rw [e2] at hlen ⊢
-  rw [e3, h2 (pre ++ b1) rest l hlen]
-  simp [Nat.add_assoc]
+  obtain ⟨al2, r2⟩ := h2 (pre ++ b1) rest l al1 hlen
+  rw [e3, r2]
+  exact ⟨al2, by simp [Nat.add_assoc]⟩
 
 theorem reads_nUint (k v : Nat) (hv : v < 256 ^ k) : Reads (nUint k) (leN k v) (v, false) := by
-  intro pre rest l hlen
+  intro pre rest l al hlen
+  refine ⟨al, ?_⟩
   unfold nUint liftO
   have := rt_uintN k v hv pre rest hlen
   unfold writeUintN at this
@@ -46,7 +51,8 @@ theorem reads_uN (k v : Nat) (hv : v < 256 ^ k) : Reads (uN k) (leN k v) v := by
   exact Reads.pure v
 
 theorem reads_u8 (v : Nat) (hv : v < 256) : Reads u8 (leN 1 v) v := by
-  intro pre rest l hlen
+  intro pre rest l al hlen
+  refine ⟨al, ?_⟩
   unfold u8
   show Dec.bind nByte _ _ = _
   unfold Dec.bind nByte liftT
@@ -59,13 +65,15 @@ theorem reads_u8 (v : Nat) (hv : v < 256) : Reads u8 (leN 1 v) v := by
   simp [Dec.pure, toNat_ofNat_lt v hv]
 
 theorem reads_nBytes (d : Bytes) : Reads (nBytes d.length) d (d, false) := by
-  intro pre rest l hlen
+  intro pre rest l al hlen
+  refine ⟨al, ?_⟩
   unfold nBytes liftO
   simp only [nextBytes_append pre d rest hlen]
 
 theorem reads_fixed (d : Bytes) (k : Nat) (hk : d.length = k) : Reads (fixed k) d d := by
   subst hk
-  intro pre rest l hlen
+  intro pre rest l al hlen
+  refine ⟨al, ?_⟩
   unfold fixed
   show Dec.bind (nFixed _) _ _ = _
   unfold Dec.bind nFixed liftO nextFixed
@@ -73,7 +81,8 @@ theorem reads_fixed (d : Bytes) (k : Nat) (hk : d.length = k) : Reads (fixed k) 
   rfl
 
 theorem reads_nBool (b : Bool) : Reads nBool (writeBool b) (b, false, false) := by
-  intro pre rest l hlen
+  intro pre rest l al hlen
+  refine ⟨al, ?_⟩
   unfold nBool liftT
   have := OntVerif.Props.C18.C18_rt_bool b pre rest
   simp only [this]
@@ -81,7 +90,8 @@ theorem reads_nBool (b : Bool) : Reads nBool (writeBool b) (b, false, false) := 
 
 theorem reads_nVarBytes (d : Bytes) :
     Reads nVarBytes (writeVarBytes d) (d, getVarUintSize d.length + d.length, false, false) := by
-  intro pre rest l hlen
+  intro pre rest l al hlen
+  refine ⟨al, ?_⟩
   unfold nVarBytes liftO
   have := OntVerif.Props.C18.C18_rt_varbytes d pre rest hlen
   simp only [this]
@@ -95,7 +105,8 @@ theorem reads_readVarBytes (d : Bytes) : Reads readVarBytes (writeVarBytes d) d 
   exact Reads.pure d
 
 theorem reads_note_false : Reads (note false) [] () := by
-  intro pre rest l _
+  intro pre rest l al _
+  refine ⟨al, ?_⟩
   simp [note]
 
 theorem reads_varBytesLax (d : Bytes) : Reads varBytesLax (writeVarBytes d) d := by
@@ -105,9 +116,14 @@ theorem reads_varBytesLax (d : Bytes) : Reads varBytesLax (writeVarBytes d) d :=
   refine Reads.bind reads_note_false (Reads.pure d) rfl
 
 theorem reads_sliceTo (l : List α) (n : Nat) (h : n ≤ l.length) : Reads (sliceTo l n) [] (l.take n) := by
-  intro pre rest lo _
+  intro pre rest lo al _
+  refine ⟨al, ?_⟩
   unfold sliceTo
   simp [h]
+
+theorem reads_allocEv {n : Nat} : Reads (allocEv n) [] () := by
+  intro pre rest l al _
+  exact ⟨al + n, by simp [allocEv]⟩
 
 theorem reads_repeatD {body : Dec α} {e : α → Bytes} (l : List α) (h : ∀ x ∈ l, Reads body (e x) x) :
     Reads (repeatD l.length body) (l.map e).flatten l := by
@@ -117,6 +133,7 @@ theorem reads_repeatD {body : Dec α} {e : α → Bytes} (l : List α) (h : ∀ 
     simp only [List.length_cons, List.map_cons, List.flatten_cons]
     unfold repeatD
     refine Reads.bind (h x (List.mem_cons_self ..)) ?_ rfl
+    refine Reads.bind reads_allocEv ?_ rfl
     refine Reads.bind (ih (fun y hy => h y (List.mem_cons_of_mem _ hy))) (Reads.pure _) (List.append_nil _).symm
 
 
@@ -167,21 +184,6 @@ theorem reads_decFindNode (h : Bytes) (hh : h.length = 20) : Reads decFindNode (
   unfold decFindNode
   exact Reads.bind (reads_fixed h 20 hh) (Reads.pure _) (by simp [encode])
 
-theorem reads_decHeaders : Reads decHeaders (encode .headersEmpty) .headersEmpty := by
-  unfold decHeaders
-  refine Reads.bind (reads_uN 4 0 (by decide)) ?_ (b2 := []) (by simp [encode])
-  simp only [bne_self_eq_false, Bool.false_eq_true, if_false]
-  exact Reads.pure _
-
-theorem reads_decMembersReq (f t : Bytes) (hf : f.length = 20) (ht : t.length = 20) :
-    Reads decMembersReq (encode (.membersReqSeed f t)) (.membersReqSeed f t) := by
-  unfold decMembersReq
-  refine Reads.bind (reads_fixed f 20 hf) ?_ (b2 := t ++ leN 4 0) (by simp [encode])
-  refine Reads.bind (reads_fixed t 20 ht) ?_ rfl
-  refine Reads.bind (reads_uN 4 0 (by decide)) ?_ (List.append_nil _).symm
-  simp only [bne_self_eq_false, Bool.false_eq_true, if_false]
-  exact Reads.pure _
-
 theorem reads_decInv (ty : Nat) (hs : List Bytes) (hty : ty < 2 ^ 8) (hn : hs.length ≤ MAX_INV_BLK_CNT)
     (hh : ∀ h ∈ hs, h.length = 32) : Reads decInv (encode (.inv ty hs)) (.inv ty hs) := by
   unfold decInv
@@ -219,16 +221,16 @@ theorem reads_decPeerAddr (a : PeerAddr) (h : a.wf) : Reads decPeerAddr (encPeer
 /-- `source.Len()` in front of a continuation that only needs a lower bound on it -/
 theorem Reads.bind_remaining {f : Nat → Dec β} {b : Bytes} {c : β}
     (h : ∀ n, n ≥ b.length → Reads (f n) b c) : Reads (remaining >>= f) b c := by
-  intro pre rest l hlen
-  show Dec.bind remaining f _ = _
+  intro pre rest l al hlen
+  show ∃ al', Dec.bind remaining f _ = _
   unfold Dec.bind remaining
   simp only
-  apply h _ _ pre rest l hlen
+  apply h _ _ pre rest l al hlen
   simp only [List.length_append]
   split <;> omega
 
-theorem reads_decAddr (v : Variant) (l : List PeerAddr) (hn : l.length ≤ MAX_ADDR_NODE_CNT) (hw : ∀ a ∈ l, a.wf) :
-    Reads (decAddr v) (encode (.addr l)) (.addr l) := by
+theorem reads_decAddr (l : List PeerAddr) (hn : l.length ≤ MAX_ADDR_NODE_CNT) (hw : ∀ a ∈ l, a.wf) :
+    Reads decAddr (encode (.addr l)) (.addr l) := by
   unfold decAddr
   unfold MAX_ADDR_NODE_CNT at hn
   refine Reads.bind (reads_uN 8 l.length (by rw [p64]; omega)) ?_ (b2 := (l.map encPeerAddr).flatten) (by simp [encode])
@@ -243,7 +245,7 @@ theorem reads_decAddr (v : Variant) (l : List PeerAddr) (hn : l.length ≤ MAX_A
   intro n hn'
   have hgt : ¬ l.length > n := by omega
   have hlb : loopBound64 l.length = l.length := by unfold loopBound64; rw [if_pos (by omega)]
-  simp only [hgt, decide_false, Bool.and_false, Bool.false_eq_true, if_false, hlb]
+  simp only [hgt, if_false, hlb]
   refine Reads.bind hrd ?_ (List.append_nil _).symm
   have hc : ¬ l.length > MAX_ADDR_NODE_CNT := by unfold MAX_ADDR_NODE_CNT; omega
   simp only [hc, decide_false, if_false]
@@ -302,23 +304,109 @@ theorem reads_decVersion (p : VersionP) (h : p.wf) : Reads decVersion (encode (.
   exact Reads.pure _
 
 
+/-! ### decoders that call out of the package -/
+
+theorem reads_varBytesEofFirst (d : Bytes) : Reads varBytesEofFirst (writeVarBytes d) d := by
+  unfold varBytesEofFirst
+  refine Reads.bind (reads_nVarBytes d) ?_ (List.append_nil _).symm
+  simp only [Bool.false_eq_true, if_false]
+  exact Reads.pure d
+
+theorem reads_decHeader (O : Oracle) (h : Bytes) (hO : ∀ rest, O.hdr (h ++ rest) = some (h.length, h)) :
+    Reads (decHeader O) h h := by
+  have hr : Reads (nBytes h.length >>= fun r => if r.2 then fail .other else do note (h != r.1); Pure.pure h) h h := by
+    refine Reads.bind (reads_nBytes h) ?_ (List.append_nil _).symm
+    simp only [Bool.false_eq_true, if_false, bne_self_eq_false]
+    exact Reads.bind reads_note_false (Reads.pure h) rfl
+  intro pre rest l al hlen
+  obtain ⟨al', hr'⟩ := hr pre rest l al hlen
+  refine ⟨al', ?_⟩
+  unfold decHeader
+  show Dec.bind peekRest _ _ = _
+  unfold Dec.bind peekRest
+  have hd : (pre ++ h ++ rest).drop pre.length = h ++ rest := by
+    rw [List.append_assoc]; exact List.drop_left' rfl
+  simp only [hd, hO rest]
+  rw [if_neg (by simp)]
+  exact hr'
+
+theorem reads_decHeaders (O : Oracle) (hs : List Bytes) (hn : hs.length < 2 ^ 32)
+    (hO : ∀ h ∈ hs, ∀ rest, O.hdr (h ++ rest) = some (h.length, h)) :
+    Reads (decHeaders O) (encode (.headers hs)) (.headers hs) := by
+  unfold decHeaders
+  refine Reads.bind (reads_uN 4 hs.length (by rw [p32]; exact hn)) ?_ (b2 := hs.flatten) (by simp [encode])
+  have hr := reads_repeatD (body := decHeader O) (e := fun x => x) hs (fun x hx => reads_decHeader O x (hO x hx))
+  simp only [List.map_id'] at hr
+  exact Reads.bind hr (Reads.pure _) (List.append_nil _).symm
+
+theorem reads_decMembersReq (O : Oracle) (f t : Bytes) (ts : Nat) (pk sg : Bytes)
+    (hw : (Msg.membersReq f t ts pk sg).wf O) :
+    Reads (decMembersReq O) (encode (.membersReq f t ts pk sg)) (.membersReq f t ts pk sg) := by
+  obtain ⟨hf, ht, hts, h0, h1⟩ := hw
+  unfold decMembersReq
+  simp only [encode]
+  refine Reads.bind (reads_fixed f 20 hf) ?_ (by simp only [List.append_assoc]; rfl)
+  refine Reads.bind (reads_fixed t 20 ht) ?_ rfl
+  refine Reads.bind (reads_uN 4 ts (by rw [p32]; exact hts)) ?_ rfl
+  by_cases hz : ts = 0
+  · subst hz
+    obtain ⟨rfl, rfl⟩ := h0 rfl
+    simp only [bne_self_eq_false, Bool.false_eq_true, if_false]
+    exact Reads.pure _
+  · obtain ⟨hpk, hexp, hsig⟩ := h1 hz
+    have hne : (ts != 0) = true := by simpa using hz
+    simp only [hne, if_true]
+    refine Reads.bind (reads_readVarBytes pk) ?_ rfl
+    simp only [hpk]
+    refine Reads.bind (reads_readVarBytes sg) ?_ (List.append_nil _).symm
+    simp only [hexp, hsig, Bool.false_eq_true, if_false, Bool.not_true, bne_self_eq_false]
+    exact Reads.bind reads_note_false (Reads.pure _) rfl
+
+theorem reads_decConsensus (O : Oracle) (ver : Nat) (prev : Bytes) (height bk ts : Nat) (data owner sg : Bytes)
+    (hw : (Msg.consensus ver prev height bk ts data owner sg).wf O) :
+    Reads (decConsensus O) (encode (.consensus ver prev height bk ts data owner sg)) (.consensus ver prev height bk ts data owner sg) := by
+  obtain ⟨h1, h2, h3, h4, h5, hpk⟩ := hw
+  unfold decConsensus
+  simp only [encode]
+  refine Reads.bind (reads_uN 4 ver (by rw [p32]; exact h1)) ?_ (by simp only [List.append_assoc]; rfl)
+  refine Reads.bind (reads_fixed prev 32 h2) ?_ rfl
+  refine Reads.bind (reads_uN 4 height (by rw [p32]; exact h3)) ?_ rfl
+  refine Reads.bind (reads_uN 2 bk (by rw [p16]; exact h4)) ?_ rfl
+  refine Reads.bind (reads_uN 4 ts (by rw [p32]; exact h5)) ?_ rfl
+  refine Reads.bind (reads_varBytesEofFirst data) ?_ rfl
+  refine Reads.bind (reads_varBytesEofFirst owner) ?_ rfl
+  simp only [hpk]
+  refine Reads.bind (reads_readVarBytes sg) ?_ (List.append_nil _).symm
+  simp only [bne_self_eq_false]
+  exact Reads.bind reads_note_false (Reads.pure _) rfl
+
+theorem reads_decUpdateKadId (O : Oracle) (pk : Bytes) (hw : (Msg.updateKadId pk).wf O) :
+    Reads (decUpdateKadId O) (encode (.updateKadId pk)) (.updateKadId pk) := by
+  obtain ⟨hpk, hkad⟩ := hw
+  unfold decUpdateKadId
+  simp only [encode]
+  refine Reads.bind (reads_readVarBytes pk) ?_ (List.append_nil _).symm
+  simp only [hpk, hkad, Bool.not_true, Bool.false_eq_true, if_false, bne_self_eq_false]
+  exact Reads.bind reads_note_false (Reads.pure _) rfl
+
 /-! ### dispatch -/
 section dispatch
 set_option linter.unusedSimpArgs false
 
-theorem decodePayload_unknown (v : Variant) (c : Bytes) (h : c ∉ knownCmds) : decodePayload v c = decUnknown c := by
+theorem decodePayload_unknown (O : Oracle) (c : Bytes) (h : c ∉ knownCmds) : decodePayload O c = decUnknown c := by
   unfold decodePayload
   simp only [knownCmds, List.mem_cons, List.not_mem_nil, or_false, not_or] at h
   simp [h]
 
-theorem decodePayload_known (v : Variant) :
-    decodePayload v cPing = decPing ∧ decodePayload v cPong = decPong ∧ decodePayload v cVerack = decVerack ∧
-    decodePayload v cGetAddr = decAddrReq ∧ decodePayload v cAddr = decAddr v ∧
-    decodePayload v cGetHeaders = decHeadersReq ∧ decodePayload v cGetBlocks = decBlocksReq ∧
-    decodePayload v cInv = decInv ∧ decodePayload v cGetData = decDataReq ∧ decodePayload v cNotFound = decNotFound ∧
-    decodePayload v cFindNode = decFindNode ∧ decodePayload v cFindNodeAck = decFindNodeResp ∧
-    decodePayload v cVersion = decVersion ∧ decodePayload v cMembers = decMembers ∧
-    decodePayload v cGetMembers = decMembersReq ∧ decodePayload v cHeaders = decHeaders := by
+theorem decodePayload_known (O : Oracle) :
+    decodePayload O cPing = decPing ∧ decodePayload O cPong = decPong ∧ decodePayload O cVerack = decVerack ∧
+    decodePayload O cGetAddr = decAddrReq ∧ decodePayload O cAddr = decAddr ∧
+    decodePayload O cGetHeaders = decHeadersReq ∧ decodePayload O cGetBlocks = decBlocksReq ∧
+    decodePayload O cInv = decInv ∧ decodePayload O cGetData = decDataReq ∧ decodePayload O cNotFound = decNotFound ∧
+    decodePayload O cFindNode = decFindNode ∧ decodePayload O cFindNodeAck = decFindNodeResp ∧
+    decodePayload O cVersion = decVersion ∧ decodePayload O cMembers = decMembers ∧
+    decodePayload O cGetMembers = decMembersReq O ∧ decodePayload O cHeaders = decHeaders O ∧
+    decodePayload O cConsensus = decConsensus O ∧ decodePayload O cUpdateKadId = decUpdateKadId O := by
   unfold decodePayload
   simp [cPing, cVersion, cVerack, cAddr, cGetAddr, cPong, cGetHeaders, cHeaders, cInv, cGetData,
     cBlock, cTx, cConsensus, cNotFound, cGetBlocks, cFindNode, cFindNodeAck, cUpdateKadId, cGetMembers, cMembers, cOffline]
@@ -326,21 +414,21 @@ theorem decodePayload_known (v : Variant) :
 end dispatch
 
 theorem Reads.whole {d : Dec α} {b : Bytes} {a : α} (h : Reads d b a) (hl : b.length < two64) :
-    d (St.init b) = .ok (a, ⟨⟨b, b.length⟩, false⟩) := by
-  have := h [] [] false (by simpa using hl)
-  simpa [St.init] using this
+    ∃ al, d (St.init b) = .ok (a, ⟨⟨b, b.length⟩, false, al⟩) := by
+  obtain ⟨al, this⟩ := h [] [] false 0 (by simpa using hl)
+  exact ⟨al, by simpa [St.init] using this⟩
 
 /-- `decode (encode m) = m`, the whole payload consumed, nothing lost -/
-theorem decodeAll_rt (v : Variant) (m : Msg) (hw : m.wf) (hl : (encode m).length < two64) :
-    decodeAll v m.cmd (encode m) = .ok (m, ⟨⟨encode m, (encode m).length⟩, false⟩) := by
-  obtain ⟨k1, k2, k3, k4, k5, k6, k7, k8, k9, k10, k11, k12, k13, k14, k15, k16⟩ := decodePayload_known v
+theorem decodeAll_rt (O : Oracle) (m : Msg) (hw : m.wf O) (hl : (encode m).length < two64) :
+    ∃ al, decodeAll O m.cmd (encode m) = .ok (m, ⟨⟨encode m, (encode m).length⟩, false, al⟩) := by
+  obtain ⟨k1, k2, k3, k4, k5, k6, k7, k8, k9, k10, k11, k12, k13, k14, k15, k16, k17, k18⟩ := decodePayload_known O
   unfold decodeAll
   cases m with
   | ping h => simp only [Msg.cmd, k1]; exact (reads_decPing h hw).whole hl
   | pong h => simp only [Msg.cmd, k2]; exact (reads_decPong h hw).whole hl
   | verack c => simp only [Msg.cmd, k3]; exact (reads_decVerack c).whole hl
-  | addrReq => simp only [Msg.cmd, k4]; rfl
-  | addr l => simp only [Msg.cmd, k5]; exact (reads_decAddr v l hw.1 hw.2).whole hl
+  | addrReq => simp only [Msg.cmd, k4]; exact ⟨0, rfl⟩
+  | addr l => simp only [Msg.cmd, k5]; exact (reads_decAddr l hw.1 hw.2).whole hl
   | headersReq n s e => simp only [Msg.cmd, k6]; exact (reads_decHeadersReq n s e hw.1 hw.2.1 hw.2.2).whole hl
   | blocksReq n s e => simp only [Msg.cmd, k7]; exact (reads_decBlocksReq n s e hw.1 hw.2.1 hw.2.2).whole hl
   | inv ty hs => simp only [Msg.cmd, k8]; exact (reads_decInv ty hs hw.1 hw.2.1 hw.2.2).whole hl
@@ -351,14 +439,17 @@ theorem decodeAll_rt (v : Variant) (m : Msg) (hw : m.wf) (hl : (encode m).length
     simp only [Msg.cmd, k12]; exact (reads_decFindNodeResp id succ addr closer hw.1 hw.2.1 hw.2.2).whole hl
   | version p => simp only [Msg.cmd, k13]; exact (reads_decVersion p hw).whole hl
   | members l => simp only [Msg.cmd, k14]; exact (reads_decMembers l hw).whole hl
-  | membersReqSeed f t => simp only [Msg.cmd, k15]; exact (reads_decMembersReq f t hw.1 hw.2).whole hl
-  | headersEmpty => simp only [Msg.cmd, k16]; exact reads_decHeaders.whole hl
+  | membersReq f t ts pk sg => simp only [Msg.cmd, k15]; exact (reads_decMembersReq O f t ts pk sg hw).whole hl
+  | headers hs => simp only [Msg.cmd, k16]; exact (reads_decHeaders O hs hw.1 hw.2).whole hl
+  | consensus ver prev height bk ts data owner sg =>
+    simp only [Msg.cmd, k17]; exact (reads_decConsensus O ver prev height bk ts data owner sg hw).whole hl
+  | updateKadId pk => simp only [Msg.cmd, k18]; exact (reads_decUpdateKadId O pk hw).whole hl
   | unknown c p =>
     have he : encode (.unknown c p) = p := rfl
     rw [he] at hl ⊢
-    simp only [Msg.cmd, decodePayload_unknown v c hw.1]
+    simp only [Msg.cmd, decodePayload_unknown O c hw.1]
     rw [decUnknown_eq c (St.init p) ⟨by simp [St.init], by simpa [St.init] using hl⟩]
-    simp [St.init]
+    exact ⟨0, by simp [St.init]⟩
   | «opaque» c => exact hw.elim
 
 /-! ### framing -/
@@ -411,7 +502,7 @@ theorem parseHeader_rt (magic len : Nat) (c k : Bytes) (hm : magic < 2 ^ 32) (hl
   simp only [padTo_self 12 c hc, padTo_self 4 k hk]
   exact Reads.pure _
 
-theorem cmd_trim (m : Msg) (hw : m.wf) : m.cmd.length ≤ 12 ∧ m.cmd.getLast? ≠ some 0 := by
+theorem cmd_trim (O : Oracle) (m : Msg) (hw : m.wf O) : m.cmd.length ≤ 12 ∧ m.cmd.getLast? ≠ some 0 := by
   cases m with
   | unknown c p => exact hw.2
   | «opaque» c => exact hw.elim
@@ -425,14 +516,16 @@ theorem readFull_append (a b : Bytes) : readFull (a ++ b) a.length = .ok (a, b) 
   · rw [if_neg h, if_pos (by simp)]
     simp
 
-theorem readMessage_rt (v : Variant) (magic : Nat) (H : Bytes → Bytes) (m : Msg) (rest : Bytes)
-    (hf : Framable H magic m) :
-    readMessage v magic H (writeMessage magic H m ++ rest) =
-      .ok ⟨m, (encode m).length, rest, (encode m).length, ⟨⟨encode m, (encode m).length⟩, false⟩⟩ := by
+theorem readMessage_rt (O : Oracle) (magic : Nat) (H : Bytes → Bytes) (m : Msg) (rest : Bytes)
+    (hf : Framable O H magic m) :
+    ∃ al, readMessage O magic H (writeMessage magic H m ++ rest) =
+      .ok ⟨m, (encode m).length, rest, (encode m).length, ⟨⟨encode m, (encode m).length⟩, false, al⟩⟩ := by
   obtain ⟨hw, hm, hlen, hH⟩ := hf
   have hlen64 : (encode m).length < two64 := by unfold MAX_PAYLOAD_LEN at hlen; unfold two64; omega
   have hlen32 : (encode m).length < 2 ^ 32 := by unfold MAX_PAYLOAD_LEN at hlen; omega
-  obtain ⟨hc1, hc2⟩ := cmd_trim m hw
+  obtain ⟨hc1, hc2⟩ := cmd_trim O m hw
+  obtain ⟨al, hdec⟩ := decodeAll_rt O m hw hlen64
+  refine ⟨al, ?_⟩
   unfold readMessage writeMessage
   simp only
   generalize hhdr : leN 4 magic ++ padTo 12 m.cmd ++ leN 4 (encode m).length ++ padTo 4 (H (encode m)) = hdr
@@ -444,7 +537,7 @@ theorem readMessage_rt (v : Variant) (magic : Nat) (H : Bytes → Bytes) (m : Ms
   rw [hhl] at this
   rw [this]
   simp only
-  have hp := (parseHeader_rt magic (encode m).length (padTo 12 m.cmd) (padTo 4 (H (encode m))) hm hlen32
+  obtain ⟨alh, hp⟩ := (parseHeader_rt magic (encode m).length (padTo 12 m.cmd) (padTo 4 (H (encode m))) hm hlen32
     (padTo_length _ _) (padTo_length _ _)).whole (by rw [hhdr, hhl]; unfold two64; omega)
   rw [hhdr] at hp
   rw [hp]
@@ -455,8 +548,7 @@ theorem readMessage_rt (v : Variant) (magic : Nat) (H : Bytes → Bytes) (m : Ms
   rw [padTo_self 4 _ (hH _)]
   simp only [not_true_eq_false, if_false]
   rw [trimRight0_padTo m.cmd hc1 hc2]
-  have := decodeAll_rt v m hw hlen64
-  unfold decodeAll at this
-  rw [this]
+  unfold decodeAll at hdec
+  rw [hdec]
 
 end OntVerif.Proofs.P2PMsg
